@@ -717,6 +717,37 @@ func runC03(c *core.Ctx) {
 			}
 		}
 	}
+	// ---- (iii-h) variable defaults that name variables (the grammar reads "$x" wherever a value is read): a default that refers
+	// to its own variable, two defaults that refer to each other, a default that holds its variable inside a list or an object -
+	// with the variables left out, given, and half given
+	if own() {
+		decls := []string{
+			"$a: Int = $a", "$a: Int = $b, $b: Int = $a", "$a: Int = $b, $b: Int = $c, $c: Int = $a", "$a: [[Int]] = [[1], $a]", "$a: [Int] = [1, $a]",
+			"$a: Filter = {min: 1, sub: $a}", "$a: Filter = {min: $b}, $b: Int = $a", "$a: [Filter] = [{min: 1}, $a]", "$a: Int = $zz", "$a: String = $a, $b: Boolean = $b",
+		}
+		uses := []string{"pick(i: $a)", "pick(m: $a)", "pick(in: $a)", "pick(fs: $a)", "pick(ss: [$a])", "pick(in: {min: 1, sub: $a})", "echo(s: $a, b: $b)", "a @include(if: $a) { id }", "i"}
+		for _, d := range decls {
+			for _, u := range uses {
+				for _, vars := range []map[string]interface{}{nil, {"b": 1}, {"a": 1}} {
+					st.resolveAll("variable-default-names-variable", "query Q("+d+") { "+u+" }", "Q", vars)
+				}
+			}
+		}
+	}
+	// ---- (iii-i) two selections with one response key whose values are lists of different lengths, or a list and something
+	// else: every ordered pair of list-valued (and a few other) fields under one alias, at the root and one level down
+	if own() {
+		fields := []string{"kids{id}", "peers{id}", "as{id}", "strs", "ints", "nameds{name}", "us{__typename}", "ll{id}", "vkids{id}", "mkids{id}", "kid{id}", "i", "vals{id}", "kids{id kids{id}}"}
+		for _, f1 := range fields {
+			for _, f2 := range fields {
+				if f1 == f2 {
+					continue
+				}
+				st.resolveAll("same-key-different-shapes", "{ x: "+f1+" x: "+f2+" }", "", nil)
+				st.resolveAll("same-key-different-shapes", "{ a { x: "+f1+" ... on A { x: "+f2+" } } }", "", nil)
+			}
+		}
+	}
 	// ---- (iv) reader faults at every Read call of every corpus document
 	for di, doc := range append(append([]string{}, exeCorpus[:6]...), sdlCorpus[:3]...) {
 		isSDL := di >= 6
